@@ -76,7 +76,8 @@ def _eliminate(m, P, d, phi):
     AG = A[np.ix_(I, G)]
     Ae = AI - AG @ BGi @ BI
     se = s[I] - AG @ BGi @ c[G]
-    return Ae, se, A, s, I
+    sabs = np.abs(s[I]) + np.abs(AG @ BGi) @ np.abs(c[G])      # size of the constituents of se (they may cancel)
+    return Ae, se, A, s, I, sabs
 
 
 def check(case):
@@ -94,7 +95,7 @@ def check(case):
         res.discarded = True
         res.discard_reason = 'bc-elimination-singular'
         return res
-    Ae, se, A, s, I = el
+    Ae, se, A, s, I, sabs = el
     alpha = np.full(nint, float(P['alpha'])) if np.isscalar(P['alpha']) else np.array(P['alpha'], float).ravel()
     B = Ae / alpha[:, None]
     nB = float(np.abs(B).sum(axis=1).max())
@@ -209,10 +210,17 @@ def check(case):
             return res
         star = Ainv @ se
         cond = float(np.abs(Ainv).sum(axis=1).max() * np.abs(Ae).sum(axis=1).max())
-        if not np.all(np.isfinite(star)) or cond > 1e10:
+        # the library solves the full system (ghost rows included), whose conditioning can be far worse than the eliminated one's
+        Mb_full, _ = pf.boundaryConditionsTerm(phi.BCs)
+        try:
+            condF = float(np.linalg.cond(Mb_full.toarray() + A))
+        except np.linalg.LinAlgError:
+            condF = float('inf')
+        if not np.all(np.isfinite(star)) or cond > 1e10 or not condF < 1e10:
             res.discarded = True
             res.discard_reason = 'steady-illconditioned'
             return res
+        cond = max(cond, condF)
         # the code's own steady solve
         m, BC, phi = problem.build_var(P)
         pf.solvePDE(phi, problem.spatial_terms(m, P))
@@ -228,7 +236,8 @@ def check(case):
         for e in P['bc']:
             for sd in ('lo', 'hi'):
                 dscale = max(dscale, float(np.abs(np.array(e[sd]['c'], float)).max()))
-        scs = max(float(np.abs(star).max()), 1e-6 * dscale, 1e-300)
+        # ... and never below what rounding in the (possibly cancelling) constituents of the right-hand side amounts to
+        scs = max(float(np.abs(star).max()), 1e-6 * dscale, float((np.abs(Ainv) @ sabs).max()) * 1e-3, 1e-300)
         res.expect_small("steady-solve", float(np.abs(st_code - star).max() / scs), 1e-9 * max(1.0, cond * 1e-6), f"steady-solve:{tag}",
                          f"steady solvePDE != solution of the eliminated system ({tag})")
         # transient step from the steady state (the step's own system alpha/dt + A must be well conditioned: for
